@@ -130,6 +130,8 @@ class FuncInfo:
         self.starstar = None
         self.ret = "obj"
         self.is_static = False
+        self.is_classmethod = False
+        self.is_property = False
         self.body = None
         self.native = None      # python callable replacing the body (stubs)
         self.line = node.pos[1] if node is not None else 0
@@ -170,6 +172,8 @@ def make_funcinfo(node, module, cls):
                 fi.is_static = True
             if isinstance(dn, E.NameNode) and dn.name == "classmethod":
                 fi.is_classmethod = True
+            if isinstance(dn, E.NameNode) and dn.name == "property":
+                fi.is_property = True
         return fi
     if isinstance(node, N.CFuncDefNode):
         fd = func_declarator(node.declarator)
@@ -239,6 +243,9 @@ class ClassInfo:
             if isinstance(c, ClassInfo):
                 if name in c.methods:
                     fi = c.methods[name]
+                    if getattr(fi, "is_classmethod", False):
+                        from .values import BoundMethod
+                        return BoundMethod(d["interp"], self, fi)
                     return d["interp"].make_function(fi)
                 if name in c.class_vars:
                     return c.class_vars[name]
@@ -256,6 +263,7 @@ class ModuleInfo:
         self.tree = None
         self.pxd_tree = None
         self.executed = False
+        self.cdivision = True       # overwritten from the source's "# cython: cdivision" directive when it is parsed
 
     def __repr__(self):
         return "<module %s>" % self.name
